@@ -738,7 +738,9 @@ def r15_10(run):
                     run.ob("%s|isinstance(%s, %s)|stored-state-compared-by-value" % (f.short, U(a0), hit[0]), False,
                            "on the load path stored state is not discriminated by an Enum type test", run.where(f, c))
     run.stat("functions_on_the_load_path", len(funcs))
-    run.ob("load-path-scanned", len(funcs) >= 5 and bool(enums), "functions reachable from convert_format: %d; Enum classes of the package: %s"
+    if len(funcs) < 3 or not enums:
+        raise AnalysisError("load path / Enum classes not found (%d functions, %d Enum classes)" % (len(funcs), len(enums)))
+    run.ob("load-path-scanned", True, "functions reachable from convert_format: %d; Enum classes of the package: %s"
            % (len(funcs), sorted(enums)), "src/pandapipes/io/convert_format.py")
     run.floor(1)
 
